@@ -53,6 +53,11 @@ CHECKS = {
             "Generated pipelines put 0..8 requests behind an Unbind (same write() or split at generated offsets) while any subset of the 0..8 earlier handlers is held on a gate; the oracle demands no handler entry and no response for anything after the Unbind, no response to the Unbind, the unbind handler exactly once iff registered, every earlier request answered once, and the close (client EOF and OnClose) stamped after every earlier handler's exit.",
             "the gate opens 0..40 ms after sending; a missing close is reported after 8 s (a correct server needs milliseconds after the gate opens)",
             "DESIGN.md §4 C10"),
+    "C12": ("exploration",
+            "property-based scenario testing (rapid) of Stop/Run orders and connection states with harness-owned gates; counters sampled at the instant Stop returns + bind probe on the port",
+            "Orders {Stop before Run, concurrently with Run's start after generated yields, after Ready, twice in sequence, twice concurrently} x 0..6 connections whose handler / OnClose callback is held on a gate that a TIMER opens 20..250 ms after Stop was called (every client has already left, so C11's hang cannot mask the property). At the instant Stop returns the in-flight handler counter must be 0 and completed OnClose callbacks must equal accepted connections - facts read from counters, not timing guesses; after Run returned nil the port must refuse connections and be bindable again.",
+            "the exact interleaving of Stop with Run's listen step is reached by repetition over yield counts, not controlled",
+            "DESIGN.md §4 C12"),
     "C13": ("exploration",
             "property-based scenario testing (rapid) of StartTLS sessions with generated handler timings through a recording wiretap proxy; handshake/decoding oracle + byte classification of the wire",
             "1..16 parallel sessions upgrade through a wiretap; the StartTLS handler's delays before the reply, between reply and handshake (client's ClientHello already on the wire) and after the handshake are generated; afterwards 1..40 generated requests run inside the tunnel, sequentially or pipelined. Conforming clients (raw independent client and go-ldap) must complete the handshake for every timing, every tunnel request must be decoded field-by-field as in C01 and answered once, and every captured byte after the StartTLS exchange must be a TLS record in both directions.",
